@@ -2,11 +2,11 @@
 from engine import core
 
 INFO = {
-    "outside": 'strings longer than N characters; IPv6 round trip for shapes not listed',
+    "outside": 'arbitrary strings longer than N characters; the IPv6 format->parse round trip (lrtr_ipv6_addr_to_str output is only checked for buffer bounds: its data-dependent layout gave no verdict within 12 GB); compressed forms with mixed digit counts per group',
     "assumptions": ['libc models for the four format strings'],
 }
 MANIFEST = {
-    "text": 'Real ipv4.c/ipv6.c/ip.c with exact models of the four libc format strings: all 2^32 IPv4 addresses round-trip and never write beyond the length told; the IPv6 parser is a function of the text only (two runs from different uninitialised stacks agree) for every string of <=10/16 characters; every such string the reference inet_pton grammar accepts is accepted with the same bits; to_str refuses short buffers; IPv6 round trip per zero-run shape in the thorough tier.',
+    "text": 'Real ipv4.c/ipv6.c/ip.c with exact models of the four libc format strings: all 2^32 IPv4 addresses round-trip and never write beyond the length told; the IPv6 parser is a function of the text only (two runs from different uninitialised stacks agree) for every string of <=10/16 characters; every such string the reference inet_pton grammar accepts is accepted with the same bits; to_str refuses short buffers; every compressed text form (the double colon at every position and length, incl. forms no formatter emits) with symbolic digits parses to the reference result.',
     "note": "inet_pton itself cannot be encoded (glibc, no source): agreement is with a reference recogniser that follows glibc's algorithm; it and the printf/sscanf models are differential-tested against glibc by scripts/c19_selftest (oracle validation, not the deciding step).",
     "technique": 'CBMC on real ipv6.c/ipv4.c with libc format models and a reference inet_pton grammar',
 }
@@ -63,7 +63,12 @@ def jobs(tier):
         for dg in ((1,) if tier == "quick" else (1, 4)):
             J.append(ijob("v6_compressed_p%d_l%d_d%d" % (pos, ln, dg), "harness_v6_compressed", 16 if dg == 1 else 40,
                           extra=["DC_POS=%d" % pos, "DC_LEN=%d" % ln, "DC_DIGITS=%d" % dg], timeout=900))
-    shapes = [] if tier == "quick" else sorted(set(SHAPES_QUICK + [0xc0, 0x03, 0x18, 0xf0, 0x0f, 0xaa, 0x55, 0xfc, 0xf8, 0x3f, 0x7e, 0xfd, 0xe7, 0xbd]))
+    # IPv6 format->parse round trip: NOT part of either tier (no verdict within 12 GB / 10 min per shape: the
+    # formatter's output positions depend on the data); kept for experiments with VERIF_C19_ROUNDTRIP=1
+    import os
+    shapes = [] if not os.environ.get("VERIF_C19_ROUNDTRIP") else sorted(set(SHAPES_QUICK + [0xc0, 0x03, 0x18, 0xf0, 0x0f, 0xaa, 0x55, 0xfc, 0xf8, 0x3f, 0x7e, 0xfd, 0xe7, 0xbd]))
     for z in shapes:
-        J.append(ijob("v6_roundtrip_z%02x" % z, "harness_v6_roundtrip", 46, extra=["ZMASK=0x%02x" % z], timeout=5400, weight=2))
+        for dg in (1, 4) if tier == "quick" else (1, 2, 3, 4):
+            J.append(ijob("v6_roundtrip_z%02x_d%d" % (z, dg), "harness_v6_roundtrip", 46,
+                          extra=["ZMASK=0x%02x" % z, "RT_DIGITS=%d" % dg], timeout=2400))
     return J
